@@ -40,6 +40,13 @@ H void h_legacy(const double* vals, long nvals, long n, long auto_interval, long
   for (long i = 0; i < n; i++) pdf[i] = h.getPdf()[i];
   minmax[0] = h.getMin(); minmax[1] = h.getMax(); minmax[2] = h.getInterval();
 }
+// legacy Histogram::Normalize from an arbitrary state (bins, interval)
+H void h_legacy_norm(const double* pdf, long n, double interval, double* out) {
+  Histogram h;
+  h.pdf_.assign(pdf, pdf + n); h.interval_ = interval;
+  h.Normalize();
+  for (long i = 0; i < n; i++) out[i] = h.pdf_[i];
+}
 
 #ifdef VERIF_LAYOUT
 #include <cstdio>
